@@ -19,6 +19,7 @@ type RangeLoop struct {
 	nodes []node
 	ctx   *Ctx
 	kbuf  []byte
+	kset  bool
 	brk   bool
 	next  *RangeLoop
 }
@@ -40,6 +41,7 @@ func (rl *RangeLoop) RequireKey() bool {
 
 // SetKey saves key to the context.
 func (rl *RangeLoop) SetKey(val any, ins inspector.Inspector) {
+	rl.kset = true
 	rl.ctx.Set(byteconv.B2S(rl.n.loopKey), val, ins)
 }
 
